@@ -47,7 +47,7 @@ ASSUMPTIONS = [
     "a call that exhausts its 50 resampling attempts because of bad initial conditions is outside the domain (discarded, counted); generated specs atomica cannot build/run unsampled are discarded (C18)",
     "Ensemble.run_sims(parallel=True) cannot be given a worker count (sc.parallelize default = all CPUs); it is exercised on library projects and the hand-written spec only; its fingerprint is computed on the worker inside the mapping function",
 ]
-BUDGET = {"quick": 72, "thorough": 1500}
+BUDGET = {"quick": 60, "thorough": 1500}
 TIME_CAP = {"quick": 80, "thorough": 1700}
 MAX_SHARDS = 4
 PROFILE = {"max_pops": 2, "p_timed": 0.0, "p_junction": 0.2, "max_steps": 6, "extreme": 0.0, "p_function": 0.1, "p_programs": 0.45, "max_ord": 3, "p_limits": 0.15}
@@ -328,7 +328,7 @@ def check(case):
 
     # 1a. per quantity: the sampled VALUE of every input with sigma > 0 differs from the entered value and between samples (two
     #     consecutive samples after one seeding + one sample after another seeding); inputs with sigma 0/None keep their value
-    src_q = H.quantity_values(ps, pg)
+    src_q = H.quantity_values(ps, pg, set(P.framework.pars.index))
     np.random.seed(case["probe_seeds"][0])
     trio = [H.quantity_values(*direct()), H.quantity_values(*direct())]
     np.random.seed(case["probe_seeds"][1])
